@@ -348,7 +348,23 @@ func propEviction(c *Case) {
 				c.Assert(be.Len() == len(pop), "evicted-outside-cycle", "Len()=%d before the cleanup cycle, population %d", be.Len(), len(pop))
 
 				time.Sleep(1)
-				be.Cleanup()
+
+				// the cycle may run while a cleanup cycle of ANOTHER cache instance is under way
+				// (here: from inside that instance's EvictionNeeded callback); instances are independent
+				if c.Weighted("cycle-nested-in-another-instance's-cycle", 3, 1) == 1 {
+					other := newCaseBackend(c, kind, cache.Config{
+						Name: "other", TimeToLive: time.Hour, DeleteExpiredJobInterval: 2 * farFuture, ItemsCountReportInterval: farFuture,
+						EvictionNeeded: func() bool {
+							be.Cleanup()
+
+							return false
+						},
+					})
+					other.Cleanup()
+					c.Class("cycle-overlaps-another-instance's-cycle")
+				} else {
+					be.Cleanup()
+				}
 
 				longExpired := 0
 
